@@ -145,6 +145,16 @@ func c16Exec(x *Ctx) {
 		x.Trouble("tree: %v", err)
 		return
 	}
+	// now and then a file is larger than 32 bits can say (sparse: it costs nothing)
+	if r.Pct(30) {
+		for _, e := range tree {
+			if e.Kind == 'f' && r.Pct(40) {
+				os.Truncate(filepath.Join(u.Root, e.Rel), int64(r.Pick(1<<32, 1<<32+77, 5<<30+1234, 1<<40+5)))
+				x.Probe("file-of-4GiB-or-more")
+				break
+			}
+		}
+	}
 	// give files distinguishable mtimes
 	for i, e := range tree {
 		if e.Kind == 'f' || e.Kind == 'd' {
@@ -365,6 +375,20 @@ func c16Exec(x *Ctx) {
 					}
 				}
 				full := exist == len(names)
+				if full && len(names) > 0 && r.Pct(25) {
+					// the object changes behind the server's back between the walk and the first look at the fid
+					tp := filepath.Join(append([]string{start}, names...)...)
+					if fi, err := os.Lstat(tp); err == nil && fi.Mode().IsRegular() && fi.Size() < 1<<20 {
+						os.Chmod(tp, fi.Mode().Perm()^0o044)
+						if f, err := os.OpenFile(tp, os.O_WRONLY|os.O_APPEND, 0); err == nil {
+							f.Write([]byte("changed"))
+							f.Close()
+						}
+						t := fi.ModTime().Unix() + 5
+						syscall.UtimesNano(tp, []syscall.Timespec{{Sec: t}, {Sec: t}})
+						x.Probe("file-changed-between-walk-and-stat")
+					}
+				}
 				if !full {
 					x.Probe("partial-walk")
 					if inplace {
